@@ -33,8 +33,8 @@ func init() {
 
 var profC10 = ConcProfile{
 	Profile: Profile{
-		MaxBars: 3, MinBars: 1, Refresh: []string{"autort", "autort", "autoinj", "manual", "none"}, QLens: []int{-1, -1, 0},
-		Pop: 15, Prio: true, Text: 1, Rm: 25, AbortW: 2, Ext: 10,
+		MaxBars: 4, MinBars: 1, Refresh: []string{"autort", "autort", "autoinj", "manual", "none"}, QLens: []int{-1, -1, 0},
+		Pop: 15, Queue: 30, Prio: true, Text: 1, Rm: 25, AbortW: 2, Ext: 10,
 		SyncDecors: 1, PlainDecors: 1, Wraps: true, Fillers: []string{"tag", "bar"}, EwmaPct: 20, Listeners: 10, BuiltinPct: 50,
 	},
 	MaxBlocks: 8, MaxBlockOps: 16, Pars: 2, CancelIn: 12, PerturbMax: 2, HoldPct: 50, SyncPct: 30, WriteBoost: 8,
@@ -92,6 +92,30 @@ func genC10(t *rapid.T) interface{} {
 		}
 		st := engine.Step{Op: "add2", Bar: n, N: int64(n + 1)}
 		sc.Steps = append(sc.Steps[:at], append([]engine.Step{st}, sc.Steps[at:]...)...)
+	}
+	if sc.Cfg.Refresh != "none" && rapid.IntRange(0, 4).Draw(t, "latesuccrace") == 0 {
+		// a bar finishes, goes through its last frames and stays displayed; then one
+		// client queues a bar after it (the late-successor path, which reads the
+		// finished bar's place in the heap) while another changes its priority
+		n := len(sc.Bars)
+		sc.Bars = append(sc.Bars,
+			engine.BarSpec{Total: 5, QueueAfter: -1, Filler: "tag", NoPop: true},
+			engine.BarSpec{Total: 5, QueueAfter: n, Filler: "tag"})
+		sc.Steps = append(sc.Steps, engine.Step{Op: "add", Bar: n}, engine.Step{Op: "setcur", Bar: n, N: 5})
+		if sc.Cfg.Refresh == "autort" {
+			sc.Steps = append(sc.Steps, engine.Step{Op: "sleep", N: 6000})
+		} else {
+			sc.Steps = append(sc.Steps, engine.Step{Op: "tick"}, engine.Step{Op: "tick"}, engine.Step{Op: "tick"})
+		}
+		var prios []engine.Step
+		for k := rapid.IntRange(1, 4).Draw(t, "nprio"); k > 0; k-- {
+			prios = append(prios, engine.Step{Op: rapid.SampledFrom([]string{"prio", "uprio"}).Draw(t, "lsop"), Bar: n, N: int64(rapid.IntRange(-3, 8).Draw(t, "lspv")), Flag: rapid.Bool().Draw(t, "lslazy")})
+		}
+		sc.Steps = append(sc.Steps, engine.Step{Op: "par", Par: [][]engine.Step{
+			{{Op: "add", Bar: n + 1}, {Op: "get", Bar: n + 1}},
+			prios,
+			{{Op: "get", Bar: n}, {Op: "traverse", Bar: n}},
+		}})
 	}
 	// getters right after Wait race with the frames of other containers? no: but
 	// reads after the bars have shut down while later frames are still drawn are
@@ -249,6 +273,15 @@ func runC10(ci interface{}) Result {
 		return r
 	}
 	r.Classes = append(append(r.Classes, "refresh:"+sc.Cfg.Refresh), featureClasses(sc)...)
+	for _, st := range sc.Steps {
+		for _, blk := range st.Par {
+			for _, b := range blk {
+				if b.Op == "add" && b.Bar < len(sc.Bars) && sc.Bars[b.Bar].QueueAfter >= 0 {
+					r.Classes = append(r.Classes, "successor-added-by-concurrent-client")
+				}
+			}
+		}
+	}
 	for _, st := range sc.Steps {
 		if st.Op == "add2" {
 			r.Classes = append(r.Classes, "parallel-adds-shared-style")
